@@ -93,6 +93,8 @@ def analyse(case, approx_override=None, skip=()):
                     params.append((p, c))
     An.params, An.pidx = params, pidx
     An.constr = [k for k, (p, c) in enumerate(params) if (pts[p]["ne"] if c in "ne" else pts[p]["u"]) == "constr"]
+    if gm.MUTATE == "minx_free" and An.constr:
+        An.constr = [k for k in range(len(params)) if k not in An.constr] or An.constr
     if not params:
         raise Discard("discard_no_unknown")
     # rows
